@@ -169,10 +169,36 @@ func checkC15(tier string) {
 			}
 		}
 	}
+	// Apply where the last parameter is an interface: earlier in the package the same helper
+	// name is also called with a concrete value / with nil (one helper must serve all calls)
+	for _, base := range [][]string{{"int"}, {"int", "string"}, {"string", "bool", "int"}} {
+		for _, iface := range []string{"interface{}", "error", "Shower"} {
+			for _, other := range []string{"concrete-first", "nil-first", "alone"} {
+				s := c15sig{ptypes: append(append([]string{}, base...), iface), rtypes: []string{"string"}, naming: "named", tpat: "last-" + iface}
+				for i := range s.ptypes {
+					s.pnames = append(s.pnames, fmt.Sprintf("p%d", i))
+				}
+				ft := s.funcType()
+				n++
+				id := fmt.Sprintf("c%d", n)
+				conc := map[string]string{"interface{}": "&Flat{}", "error": "&ShowErr{}", "Shower": "&ShowErr{}"}[iface]
+				var extra string
+				switch other {
+				case "concrete-first":
+					extra = "func pre_ID(f " + ft + ") interface{} {\n\tc := " + conc + "\n\treturn deriveApply_ID(f, c)\n}\n"
+				case "nil-first":
+					extra = "func pre_ID(f " + ft + ") interface{} { return deriveApply_ID(f, nil) }\n"
+				}
+				cases = append(cases, &e1Case{ID: id, Zero: "(*int)(nil)", Key: "apply|" + strings.Join(s.ptypes, ",") + "->string", Extra: strings.ReplaceAll(extra, "ID", id),
+					Tags:  map[string]string{"plugin": "apply", "naming": "named/" + other, "sig": ft, "tpat": s.tpat, "nres": nresClass(1)},
+					Funcs: map[string]string{"fn": strings.ReplaceAll("func(f "+ft+", l "+iface+") interface{} { return deriveApply_ID(f, l) }", "ID", id)}})
+			}
+		}
+	}
 	markSuspects(rep, "C15", cases)
 	res := runE1(cases, "C15", 120, []string{"VERIF_FUEL=2"}, 1)
 	aggregateE1(rep, "C15", cases, res,
-		fmt.Sprintf("%d non-variadic signatures: arity 2..5 x type pattern {all distinct, all int, first two equal} x naming pattern {named, unnamed, all blank, one blank at each position, a parameter called f / v at each position, blank plus a colliding param_i / innerParam_i name} x 0..3 results; x {Curry, Uncurry, Flip, Apply, Uncurry(Curry), Tuple}", len(sigs)),
+		fmt.Sprintf("%d non-variadic signatures: arity 2..5 x type pattern {all distinct, all int, first two equal} x naming pattern {named, unnamed, all blank, one blank at each position, a parameter called f / v at each position, blank plus a colliding param_i / innerParam_i name} x 0..3 results; x {Curry, Uncurry, Flip, Apply, Uncurry(Curry), Tuple}; plus Apply over signatures whose last parameter is an interface (interface{}, error, a user interface) with an earlier call of the same helper passing a concrete value / nil", len(sigs)),
 		"state = (signature, plugin, argument vector) with all 2^arity vectors of two distinct sentinels per position; transition = one call through the derived wrapper with an instrumented callee: exactly one call, every argument in its proper position, results unchanged; a signature whose generated code does not compile is a violation; non-trivial = vectors checked end to end")
 	rep.Finish()
 }
